@@ -64,7 +64,8 @@ type taskInfo struct {
 	finalResp      *remoteexecution.ExecuteResponse
 	finalClass     string // "worker-success", "worker-failure", "scheduler"
 	finalProblem   string // why the final response is not faithful ("" = fine)
-	completionTick int
+	finalTag       string // refinement of the fingerprint of finalProblem ("" = none)
+	completionTick int    // scheduler time (bq.now) when the completion was first observed
 	gone           bool
 }
 
@@ -96,10 +97,12 @@ type monitors struct {
 	opTask   map[string]int // operation name -> id
 	retries  int            // retries granted so far (all tasks)
 	finished bool
+	// Every ExecuteResponse a harness worker ever produced, by marker.
+	reportRecs map[string]*reportRec
 }
 
 func newMonitors(w *world) *monitors {
-	return &monitors{w: w, tasks: map[int]*taskInfo{}, taskOf: map[any]int{}, opTask: map[string]int{}}
+	return &monitors{w: w, tasks: map[int]*taskInfo{}, taskOf: map[any]int{}, opTask: map[string]int{}, reportRecs: map[string]*reportRec{}}
 }
 
 func (m *monitors) install() {
@@ -339,7 +342,10 @@ func (m *monitors) absorb(snap *scheduler.VerifSnap) {
 		if t.ExecuteResponse != nil && !ti.completedSeen {
 			ti.completedSeen = true
 			ti.finalResp = proto.Clone(t.ExecuteResponse).(*remoteexecution.ExecuteResponse)
-			ti.completionTick = now
+			// bq.now is monotone and only moves inside enter(): at the first
+			// quiescent point after the completing critical section it is
+			// still the time at which that section ran its clean-ups.
+			ti.completionTick = min(now, nsTick(snap.Now))
 			m.classifyCompletion(ti, t)
 		}
 	}
@@ -385,8 +391,18 @@ func (m *monitors) classifyCompletion(ti *taskInfo, t *scheduler.VerifTask) {
 		if reportIsSuccess(r) {
 			ti.finalClass = "worker-success"
 		}
-		if len(ti.reports) == 0 {
-			ti.finalProblem = "carries a worker response although no worker assigned to the task reported completion"
+		// C02: "the ExecuteResponse supplied by the worker that last ran the
+		// task": responses are keyed by (task, execution attempt) - every
+		// report carries a unique marker and is bound to the task its worker
+		// had been told to run when it produced it. A response that a worker
+		// supplied for another task (a stale or re-sent report that arrives
+		// after the scheduler has moved the worker on) is not faithful, even
+		// though it comes from the worker that currently holds this task.
+		if rec := m.reportRecs[r.GetMessage()]; rec != nil && rec.forTask != 0 && rec.forTask != ti.id {
+			ti.finalProblem = fmt.Sprintf("is the response that worker %s supplied for task %d (action %s), not for this task (action %s)", rec.worker, rec.forTask, digestShort(rec.digest), ti.digestHash)
+			ti.finalTag = "report-for-other-task"
+		} else if len(ti.reports) == 0 {
+			ti.finalProblem = "carries a worker response although no worker assigned to the task reported completion of it"
 		} else if last := ti.reports[len(ti.reports)-1]; !proto.Equal(last.resp, r) {
 			ti.finalProblem = fmt.Sprintf("differs from the response supplied by the worker that last ran the task (%s: %s)", last.worker, respSummary(last.resp))
 		}
@@ -396,31 +412,69 @@ func (m *monitors) classifyCompletion(ti *taskInfo, t *scheduler.VerifTask) {
 		msg := st.Message()
 		switch {
 		case st.Code() == codes.Unavailable && strings.Contains(msg, "disappeared while task was executing"):
-			// "worker disappeared": some worker that was told to run the
-			// task must have been silent for the worker timeout.
+			// C02 "an error the scheduler itself produced for a stated cause
+			// (worker disappeared ...)", C06 "If a worker stops synchronizing,
+			// its task fails with UNAVAILABLE after the worker timeout": some
+			// worker that held the task must have been out of contact for the
+			// worker timeout, counted from its LAST CONTACT, i.e. from the
+			// return of its last Synchronize call (a worker parked inside a
+			// long-polling Synchronize is in contact the whole time).
+			//
+			// Which instants the harness uses, and why no legal schedule of a
+			// correct scheduler can fire this:
+			//  * Return of a call. The scheduler's notion of "now" is the
+			//    largest time value any call has passed to enter() so far; a
+			//    correct scheduler arms the removal at (its now at return) +
+			//    timeout. The harness cannot see the return itself earlier
+			//    than the worker thread does, and using the tick at which
+			//    the response reaches the worker thread would be unsound
+			//    (Synchronize reads the clock BEFORE it queues for the lock;
+			//    the clock may advance while it waits, and the scheduler
+			//    legitimately stamps the return with the older value). The
+			//    harness therefore uses L = the last clock value handed to the
+			//    worker thread during that call (fakeClock.Now() or the value
+			//    delivered by its timer): the thread passed L to enter(), so
+			//    scheduler-now-at-return >= L, hence any legitimate removal
+			//    happens at a scheduler time >= L + timeout.
+			//  * Time of the failure: C = bq.now at the first quiescent point
+			//    at which the completion is visible (= the time of the enter()
+			//    that ran the clean-up; every enter() is a decision point).
+			//  * The call that ran the clean-up may be the silent worker's own
+			//    next call, which may already have returned at that quiescent
+			//    point (its enter() runs the clean-up first, then re-creates
+			//    the worker): if the worker's last returned call obtained C as
+			//    its FIRST clock value, the contact before that one counts.
+			//  * A worker whose current call has reached its select (so it has
+			//    entered the scheduler) at a time before C has cancelled its
+			//    own removal and is in contact: it cannot be the cause.
 			ok := false
 			for _, wn := range ti.assignedWorkers {
-				wk := w.byName[wn].wk
-				// The call that returned last may have returned in the very
-				// step that expired the worker (its own enter() runs the
-				// garbage collector first): also accept the one before.
-				if wk.returnedCalls > 0 && now >= min(wk.lastReturnedCallStart, wk.prevReturnedCallStart)+cfg.WorkerTimeout {
+				a := w.byName[wn]
+				if l, silent := a.lastContactBefore(now); silent && now >= l+cfg.WorkerTimeout {
 					ok = true
 				}
 			}
 			if !ok {
-				ti.finalProblem = fmt.Sprintf("UNAVAILABLE (worker disappeared) at tick %d although no worker assigned to the task had been silent for the worker timeout of %d ticks", now, cfg.WorkerTimeout)
+				ti.finalProblem = fmt.Sprintf("UNAVAILABLE (worker disappeared) at tick %d although no worker assigned to the task had been out of contact for the worker timeout of %d ticks (%s)", now, cfg.WorkerTimeout, m.contactSummary(ti.assignedWorkers))
 				m.fail("C06", "early-worker-timeout", "task %d: %s (workers %v)", ti.id, ti.finalProblem, ti.assignedWorkers)
 			}
 		case st.Code() == codes.Unavailable && strings.Contains(msg, "disappeared while task was queued"):
+			// A worker-created queue is removed QueueTimeout after the removal
+			// time of its last worker (= that worker's last contact +
+			// WorkerTimeout); same instants as above.
 			ok := cfg.Predeclared == nil
 			for _, a := range w.actors {
-				if a.kind == "worker" && a.wk.returnedCalls > 0 && now < min(a.wk.lastReturnedCallStart, a.wk.prevReturnedCallStart)+cfg.WorkerTimeout+cfg.QueueTimeout {
+				if a.kind != "worker" {
+					continue
+				}
+				if a.parkedSinceBefore(now) {
+					ok = false
+				} else if l, silent := a.lastContactBefore(now); silent && now < l+cfg.WorkerTimeout+cfg.QueueTimeout {
 					ok = false
 				}
 			}
 			if !ok {
-				ti.finalProblem = fmt.Sprintf("UNAVAILABLE (queue removed) at tick %d although the queue's workers had not been gone for worker timeout + queue timeout", now)
+				ti.finalProblem = fmt.Sprintf("UNAVAILABLE (queue removed) at tick %d although the queue's workers had not been gone for worker timeout + queue timeout (%s)", now, m.contactSummary(nil))
 				m.fail("C06", "early-queue-removal", "task %d: %s", ti.id, ti.finalProblem)
 			}
 		case st.Code() == codes.Canceled && strings.Contains(msg, "no longer has any waiting clients"):
@@ -555,7 +609,11 @@ func (m *monitors) checkStream(s *stream) {
 		m.fail("C02", "unfaithful-final-response", "stream %s received %s but task %d completed with %s", s.id, respSummary(d.resp), s.task, respSummary(ti.finalResp))
 	}
 	if ti.finalProblem != "" {
-		m.fail("C02", "unfaithful-final-response/"+ti.finalClass, "stream %s: final response %s of task %d %s", s.id, respSummary(d.resp), s.task, ti.finalProblem)
+		fp := "unfaithful-final-response/" + ti.finalClass
+		if ti.finalTag != "" {
+			fp += "/" + ti.finalTag
+		}
+		m.fail("C02", fp, "stream %s: final response %s of task %d %s", s.id, respSummary(d.resp), s.task, ti.finalProblem)
 	}
 	// C03: "a client leaving does not disturb the others, and the task is
 	// cancelled only when its last operation is abandoned": a stream is a
@@ -687,7 +745,8 @@ func (m *monitors) onWorkerCallStart(a *actor) {
 	}
 	w := m.w
 	wk := a.wk
-	if wk.reqReport == nil {
+	rec := wk.reqRec
+	if rec == nil {
 		return
 	}
 	snap := scheduler.VerifSnapshot(w.bq)
@@ -699,16 +758,61 @@ func (m *monitors) onWorkerCallStart(a *actor) {
 		return
 	}
 	t := &snap.Tasks[vw.CurrentTask]
-	if t.ExecuteResponse != nil || !digestMatches(t.ActionDigest, wk.assigned) {
+	if t.ExecuteResponse != nil {
 		return
 	}
 	id := m.taskID(t)
 	if id == 0 {
 		return
 	}
+	// The task the scheduler believes this worker runs while the report is
+	// on its way.
 	wk.reqPreTask = id
+	// The report counts as "supplied by the worker that ran the task" for
+	// the task it was produced for, and only while that task is assigned to
+	// this worker (a re-sent or late report keeps its original binding).
+	if !digestMatches(t.ActionDigest, rec.digest) || (rec.forTask != 0 && rec.forTask != id) {
+		return
+	}
 	ti := m.tasks[id]
-	ti.reports = append(ti.reports, report{worker: a.name, resp: proto.Clone(wk.reqReport).(*remoteexecution.ExecuteResponse)})
+	ti.reports = append(ti.reports, report{worker: a.name, resp: proto.Clone(rec.resp).(*remoteexecution.ExecuteResponse)})
+}
+
+// lastContactBefore returns the scheduler time of this worker's last contact
+// that a clean-up running at scheduler time c has to respect (see the
+// comment in classifyCompletion), and whether the worker can be silent at
+// all at time c (w.mu held).
+func (a *actor) lastContactBefore(c int) (int, bool) {
+	wk := a.wk
+	if wk == nil || wk.returnedCalls == 0 || a.parkedSinceBefore(c) {
+		return 0, false
+	}
+	l := wk.lastContact
+	if wk.lastCallFirst == c && wk.returnedCalls >= 2 {
+		// The last returned call may itself have run the clean-up.
+		l = min(l, wk.prevContact)
+	}
+	return l, true
+}
+
+// parkedSinceBefore: the worker's current Synchronize call has reached its
+// select (so it has entered the scheduler and cancelled its own removal)
+// and obtained its first clock value before scheduler time c (w.mu held).
+func (a *actor) parkedSinceBefore(c int) bool {
+	wk := a.wk
+	return wk != nil && a.inCall && a.doneCalls > 0 && wk.curFirst >= 0 && wk.curFirst < c
+}
+
+func (m *monitors) contactSummary(names []string) string {
+	var parts []string
+	for _, a := range m.w.actors {
+		if a.kind != "worker" || (names != nil && !containsString(names, a.name)) {
+			continue
+		}
+		wk := a.wk
+		parts = append(parts, fmt.Sprintf("%s: %d call(s) returned, last contact at tick %d, the one before at %d, in call=%v (entered at %d)", a.name, wk.returnedCalls, wk.lastContact, wk.prevContact, a.inCall, wk.curFirst))
+	}
+	return strings.Join(parts, "; ")
 }
 
 func (m *monitors) onWorkerCallEnd(a *actor, resp *remoteworker.SynchronizeResponse, err error) {
@@ -721,10 +825,16 @@ func (m *monitors) onWorkerCallEnd(a *actor, resp *remoteworker.SynchronizeRespo
 		// Race pass: only keep the worker's script state up to date.
 		w.mu.Lock()
 		defer w.mu.Unlock()
-		wk.req, wk.reqReport = nil, nil
+		wk.req, wk.reqReport, wk.reqRec = nil, nil, nil
 		if exec != nil {
+			if wk.assigned != nil && !proto.Equal(wk.assigned, exec.ActionDigest) {
+				wk.prevDigest = wk.assigned
+			}
 			wk.assigned = exec.ActionDigest
 		} else if resp.GetDesiredState().GetIdle() != nil {
+			if wk.assigned != nil {
+				wk.prevDigest = wk.assigned
+			}
 			wk.assigned = nil
 		}
 		return
@@ -734,14 +844,22 @@ func (m *monitors) onWorkerCallEnd(a *actor, resp *remoteworker.SynchronizeRespo
 	}
 	w.mu.Lock()
 	defer w.mu.Unlock()
-	wk.prevReturnedCallStart = wk.lastReturnedCallStart
-	if wk.returnedCalls == 0 {
-		wk.prevReturnedCallStart = wk.callStart
+	// Contact bookkeeping: a call that never obtained a clock value never
+	// entered the scheduler (not possible with the requests of this harness).
+	first, last := wk.curFirst, wk.curLast
+	if first < 0 {
+		first, last = wk.callStart, wk.callStart
 	}
-	wk.lastReturnedCallStart = wk.callStart
+	wk.prevContact = wk.lastContact
+	if wk.returnedCalls == 0 {
+		wk.prevContact = last
+	}
+	wk.lastContact, wk.lastCallFirst = last, first
+	wk.curFirst, wk.curLast = -1, -1
 	wk.returnedCalls++
 	wk.req = nil
 	wk.reqReport = nil
+	wk.reqRec = nil
 	if err != nil {
 		x.Outcome("%s:%s", a.name, status.Code(err))
 		return
@@ -751,6 +869,9 @@ func (m *monitors) onWorkerCallEnd(a *actor, resp *remoteworker.SynchronizeRespo
 	case ds == nil:
 		x.Outcome("%s:cont", a.name)
 	case ds.GetIdle() != nil:
+		if wk.assigned != nil {
+			wk.prevDigest, wk.prevTask = wk.assigned, wk.assignedTask
+		}
 		wk.assigned, wk.assignedTask, wk.toldCount, wk.rerequests = nil, 0, 0, 0
 		x.Outcome("%s:idle", a.name)
 	case exec != nil:
@@ -790,6 +911,9 @@ func (m *monitors) onWorkerCallEnd(a *actor, resp *remoteworker.SynchronizeRespo
 		if id != 0 && id == wk.assignedTask {
 			wk.toldCount++
 		} else {
+			if wk.assigned != nil {
+				wk.prevDigest, wk.prevTask = wk.assigned, wk.assignedTask
+			}
 			wk.assigned, wk.assignedTask, wk.toldCount, wk.rerequests = d, id, 1, 0
 			if ti != nil {
 				ti.starts++
@@ -1512,9 +1636,18 @@ func (m *monitors) buildKey(snap *scheduler.VerifSnap) string {
 			b.s(" sl=").i(a.sleepUntil)
 		}
 		if wk := a.wk; wk != nil {
-			b.s(" wk=").i(wk.calls).s("/").s(digestShort(wk.assigned)).s("/").i(wk.assignedTask).s("/").i(wk.toldCount).s("/").i(wk.rerequests).s("/").i(wk.lastReturnedCallStart).s("/").i(wk.prevReturnedCallStart).s("/").i(wk.returnedCalls).s("/").i(wk.reports)
+			b.s(" wk=").i(wk.calls).s("/").s(digestShort(wk.assigned)).s("/").i(wk.assignedTask).s("/").i(wk.toldCount).s("/").i(wk.rerequests).s("/").i(wk.lastContact).s("/").i(wk.prevContact).s("/").i(wk.lastCallFirst).s("/").i(wk.returnedCalls).s("/").i(wk.reports)
+			if wk.prevDigest != nil || wk.lastRec != nil {
+				b.s("/pv=").s(digestShort(wk.prevDigest)).s("/").i(wk.prevTask).s("/").s(wk.lastKind).s("/").s(wk.lastRec.marker())
+				if wk.lastRec != nil {
+					b.s("/").i(wk.lastRec.forTask)
+				}
+			}
 			if wk.req != nil {
-				b.s("/").s(wk.reqKind).s("/").i(wk.reqPreTask).s("@").i(wk.callStart)
+				b.s("/").s(wk.reqKind).s("/").i(wk.reqPreTask).s("@").i(wk.callStart).s("/").i(wk.curFirst).s("/").i(wk.curLast)
+				if wk.reqRec != nil {
+					b.s("/").s(wk.reqRec.marker()).s("/").i(wk.reqRec.forTask)
+				}
 			}
 		}
 		for _, oc := range a.ops {
@@ -1549,7 +1682,7 @@ func (m *monitors) buildKey(snap *scheduler.VerifSnap) string {
 		for _, sw := range ti.assignedWorkers {
 			b.s(sw).s(",")
 		}
-		b.s(" cs=").bl(ti.completedSeen).s(" g=").bl(ti.gone).s(" fc=").s(ti.finalClass).s(" fp=").bl(ti.finalProblem != "").s(" fr=").s(respSummary(ti.finalResp)).s(" rp=")
+		b.s(" cs=").bl(ti.completedSeen).s(" g=").bl(ti.gone).s(" fc=").s(ti.finalClass).s(" fp=").bl(ti.finalProblem != "").s(ti.finalTag).s(" fr=").s(respSummary(ti.finalResp)).s(" rp=")
 		for _, r := range ti.reports {
 			b.s(r.resp.Message).s(",")
 		}
